@@ -1343,7 +1343,38 @@ func valueFromColumnKey(info *mapper.Info, columnKey model.ColumnKey) (interface
 	if v.Kind() == reflect.Ptr && !v.IsNil() {
 		val = v.Elem().Interface()
 	}
+	// a set or a map cannot be the key of a Go map, and its elements come in
+	// no particular order: index it by a canonical rendering of its contents
+	switch v.Kind() {
+	case reflect.Slice, reflect.Map:
+		val = canonicalIndexValue(v)
+	}
 	return val, err
+}
+
+// canonicalIndexValue renders a set (slice) or map so that two values with the
+// same elements, in whatever order, render alike and values with different
+// elements differ: sorted, length-prefixed elements.
+func canonicalIndexValue(v reflect.Value) string {
+	item := func(x interface{}) string {
+		s := fmt.Sprintf("%v", x)
+		return fmt.Sprintf("%d:%s", len(s), s)
+	}
+	var items []string
+	kind := "set"
+	if v.Kind() == reflect.Map {
+		kind = "map"
+		iter := v.MapRange()
+		for iter.Next() {
+			items = append(items, item(iter.Key().Interface())+item(iter.Value().Interface()))
+		}
+	} else {
+		for i := 0; i < v.Len(); i++ {
+			items = append(items, item(v.Index(i).Interface()))
+		}
+	}
+	sort.Strings(items)
+	return fmt.Sprintf("%s[%d]%s", kind, len(items), strings.Join(items, ""))
 }
 
 func valueFromMap(aMap interface{}, key interface{}) (interface{}, error) {
